@@ -175,12 +175,17 @@ CLAIMED = {
     "C14": (
         "other",
         "table monotonicity along the specification's severity orders; sign-of-dependence certificates on value graphs; exact "
-        "tabulation of value-graph sub-terms over the images of their weight leaves",
+        "tabulation of value-graph sub-terms over the images of their weight leaves; v4: exact step table of the algorithm on the "
+        "code's own tables over per-class signatures (digits, level sums), premises discharged on the value graph",
         "DESIGN.md section 4 C14",
         "Monotone weights, both PR tables, strictly ordered v4 levels, monotone lookup along all digit increments; for v2 and v3 "
         "every (score, metric step, case) is decided - by derivative-sign certificates where they exist, otherwise by exact-rational "
-        "tabulation of the rounded value graph over the finite leaf images (whole tables, no sampling), with witness vectors.",
-        "Not decided: v4 across macrovector boundaries. Trusted: " + TB,
+        "tabulation of the rounded value graph over the finite leaf images (whole tables, no sampling), with witness vectors. "
+        "v4: the value graph of the score is the v4.0 algorithm on the code's own lookup and depth tables, the digits are the "
+        "specification's classifiers, the search is a first fit, the highest-severity vectors of a class are interchangeable; the "
+        "score is then a function of five per-class signatures and every single-metric severity step is compared on all 60 750 "
+        "signature tuples (about 350 000 comparisons, exact rationals), within and across macrovector boundaries.",
+        "Not decided: binary floating point vs exact evaluation of the v4 algorithm (C02's numeric clause). Trusted: " + TB,
     ),
     "C16": (
         "other",
